@@ -322,7 +322,7 @@ def handleFuseImg (toks : List String) (srcGrid : Bool := false) (pmask : Bool :
           if 0 ≤ r ∧ r < nr ∧ 0 ≤ cc ∧ cc < nc then arr.getD (r.toNat * nc.toNat + cc.toNat) none else none
         let p : ImagePair := ⟨sr, sc, rr, rc, mk sa c f, mk ra i l⟩
         " ".intercalate ((List.range c.toNat).flatMap fun (r : Nat) => (List.range f.toNat).map fun (cc : Nat) =>
-          if pmask then (if p.partialValid model kh kw n0 n1 r cc then "1" else "0") else
+          if pmask then (if (if srcGrid then p.partialValidSrcGrid model kh kw n0 n1 ups r cc else p.partialValid model kh kw n0 n1 r cc) then "1" else "0") else
           showORat (if srcGrid then p.correctedSrcGrid model kh kw n0 n1 ups r cc else p.corrected model kh kw n0 n1 ups r cc))
       | _, _ => "bad-args"
     | _, _, _, _, _, _, _, _ => "bad-args"
@@ -414,6 +414,7 @@ def handle (toks : List String) : String :=
   | "fuseimg" :: rest => handleFuseImg rest
   | "fuseimgsrc" :: rest => handleFuseImg rest true
   | "pmask" :: rest => handleFuseImg rest false true
+  | "pmasksrc" :: rest => handleFuseImg rest true true
   | "merge" :: rest => handleMerge rest
   | ["procres", sa, ra, req] =>
     match sa.toInt?, ra.toInt? with
